@@ -368,7 +368,11 @@ func main() {
 	scheds := flag.Int("scheds", 20, "random schedules per scenario")
 	dfs := flag.Int("dfs", 0, "preemption bound for DFS (0 = off)")
 	dfsCap := flag.Int("dfscap", 2000, "max executions per scenario in DFS")
+	only := flag.Int("only", -1, "execute only the scenario with this index (the generator still runs from the start)")
+	any := flag.Bool("dfsany", false, "DFS also explores big scenarios (same scenario numbering as the random mode)")
 	flag.Parse()
+	dfsAny = *any
+	onlyScenario = *only
 	out = bufio.NewWriterSize(os.Stdout, 1<<20)
 	defer out.Flush()
 	if *prop == "C13" {
